@@ -81,6 +81,12 @@ def check_search(ctx, case):
     elif m is not None:
         if m.start() != first:
             ctx.fail("search reports start {} but the leftmost start in range is {}".format(m.start(), first), case)
+        rm = ref.match(data, first, first + n)
+        want = [rm.span(i) for i in range(ref.groups + 1)]
+        have = [m.span(i) for i in range(rx.regex.groups + 1)]
+        if m.start() == first and have != want:
+            ctx.fail("search({!r}, {!r}, {}, linear={}) reports spans {} but the pattern, matched at {} within one "
+                     "turn, gives {}".format(pat, wd, kind, linear, have, first, want), case)
         if m.end() - m.start() > n or (not circ and m.end() > n):
             ctx.fail("match [{}, {}) covers more than one turn / runs past a linear end".format(m.start(), m.end()), case)
         for i in range(rx.regex.groups + 1):
